@@ -869,10 +869,39 @@ func (e *fnEnc) ret(st *state, v *ssa.Return) {
 	}
 	env := e.contractEnv(st, e.entry, nil)
 	env.setResults(e.fn, res)
+	if e.fn.Parent() != nil && len(e.fc.Requires) > 0 {
+		// a function literal used as a callback may be invoked again with other arguments:
+		// whatever its precondition says for ANY arguments before this invocation must
+		// still hold afterwards (stability of the precondition under its own effect)
+		pre := e.contractEnv(e.entry, e.entry, nil)
+		post := e.contractEnv(st, e.entry, nil)
+		for _, p := range e.fn.Params {
+			n := e.declareInput(st, "anyarg_"+p.Name(), p.Type())
+			pre.names[p.Name()] = tval{term: n, typ: p.Type()}
+			post.names[p.Name()] = tval{term: n, typ: p.Type()}
+		}
+		for i, r := range e.fc.Requires {
+			e.oblige(st, "callback-stable", fmt.Sprintf("[%s]", labelOr(r.Label, i)), v.Pos(), implies(pre.evalBool(r.Expr), post.evalBool(r.Expr)))
+		}
+	}
 	for i, en := range e.fc.Ensures {
 		t := env.evalBool(en.Expr)
 		o := e.oblige(st, "ensures", fmt.Sprintf("[%s]", labelOr(en.Label, i)), v.Pos(), t)
 		o.Quantified = strings.Contains(t, "forall") || strings.Contains(t, "exists")
 		o.Src = en.Src
 	}
+}
+
+func clauseMentionsParams(x Expr, fn *ssa.Function) bool {
+	names := map[string]bool{}
+	for _, p := range fn.Params {
+		names[p.Name()] = true
+	}
+	found := false
+	walkExpr(x, func(e Expr) {
+		if id, ok := e.(*EIdent); ok && names[id.Name] {
+			found = true
+		}
+	})
+	return found
 }
